@@ -175,7 +175,9 @@ WindowInv ==
   fault = "" =>
     \A s \in 1..Len(hist) : \A i \in 1..NA :
       (A(i).kind # "orderbook" /\ ~Active(cfg, A(i), s)) =>
-         /\ hist[s].cost[i] = 0
+         \* (only the fixed costs of a scaled asset run over its own, possibly wider, window)
+         /\ \/ hist[s].cost[i] = 0
+            \/ "fixrate" \in DOMAIN A(i) /\ hist[s].cost[i] = A(i).fixrate * cfg.dt[s] * cfg.DEN * cfg.VS
          /\ \A n \in cfg.nodes : hist[s].flow[i][n] = 0
 
 \* C20/C08: an order without any step in the horizon has no effect whatever fraction is chosen
